@@ -32,7 +32,10 @@ def run(seed, tier):
 def analyse(info):
     res = {"spellings": 0, "n_disagree": 0, "disagreements": [], "oracle": [], "samples": [], "distinct": 0, "nontrivial": 0, "stats": {}}
     base = info.get("base")
-    if not base or not os.path.exists(os.path.join(base, "req.txt")):
+    if not base or not os.path.exists(os.path.join(base, "req.txt")) or not os.path.exists(os.path.join(base, "model.txt")):
+        if info.get("errors"):
+            res["n_disagree"] = 1
+            res["disagreements"].append({"request": "(channel T harness)", "impl": "; ".join(info["errors"])[:600], "model": "the harness runs to completion"})
         return res
     req = open(os.path.join(base, "req.txt")).read().split("\n")
     imp = open(os.path.join(base, "impl.txt")).read().split("\n")
